@@ -1010,7 +1010,9 @@ func (cc *jobcontroller) initJobStatus(job *batch.Job) (*batch.Job, error) {
 		return nil, err
 	}
 
-	return newJob, nil
+	// newJob is now owned by the job cache: hand out a copy, so that the caller's
+	// later changes to the status reach the cache only through a successful update.
+	return newJob.DeepCopy(), nil
 }
 
 func (cc *jobcontroller) recordPodGroupEvent(job *batch.Job, podGroup *scheduling.PodGroup) {
